@@ -1,4 +1,5 @@
 import NetVerif.Model.H2Client
+import NetVerif.Gen.C17
 /-!
 # C17 — HTTP/2 client: stream limits and stream-ID order
 
@@ -223,6 +224,34 @@ example : step ({ maxConc := 1 } : CC) .openStream = some { maxConc := 1, stream
 example : step ({ maxConc := 1, streams := [1], nextID := 3 } : CC) .openStream = none := by decide
 example : ({ maxConc := 1, streams := [1], nextID := 3 } : CC).reserve.1 = false := by decide
 example : ({ maxConc := 1, streams := [1], nextID := 3, strict := true } : CC).reserve.1 = true := by decide
+
+/-! ## T-tie: the comparison sites regenerated from transport.go equal the model's -/
+
+theorem gen_initialMax_eq : NetVerif.Gen.C17.initialMaxConcurrentStreams = initialMaxConcurrentStreams := rfl
+
+theorem gen_defaultMax_eq : NetVerif.Gen.C17.defaultMaxConcurrentStreams = defaultMaxConcurrentStreams := rfl
+
+/-- `currentRequestCountLocked` as written in Go is the model's `count`. -/
+theorem gen_count_eq (c : CC) :
+    NetVerif.Gen.C17.count c.streams.length c.reserved c.pendingResets = c.count := rfl
+
+/-- On an open, usable connection `awaitOpenSlotForStreamLocked` proceeds exactly when the
+comparison written in Go holds. -/
+theorem gen_slotFree_eq (c : CC) (hc : c.closed = false) (hi : c.idleCanTake = true) :
+    c.await = .go ↔ NetVerif.Gen.C17.slotFree c.count c.maxConc = true := by
+  unfold CC.await NetVerif.Gen.C17.slotFree
+  simp only [hc, hi, Bool.false_and, Bool.not_true, Bool.or_self, decide_eq_true_eq]
+  by_cases h : c.count < c.maxConc
+  · simp [h]
+  · simp [h]
+
+/-- Non-strict `idleStateLocked` on an open connection is the comparison written in Go and
+`isUsableLocked`. -/
+theorem gen_poolOkay_eq (c : CC) (hs : c.strict = false) (hsu : c.singleUse = false)
+    (hc : c.closed = false) :
+    c.idleCanTake = (NetVerif.Gen.C17.poolOkay c.count c.maxConc && c.isUsable) := by
+  unfold CC.idleCanTake NetVerif.Gen.C17.poolOkay
+  simp [hs, hsu, hc]
 
 /-! ## Part 2: the trace monitor -/
 
